@@ -46,10 +46,14 @@ StepPlan(e) ==
                  [] e.op = "clear"     -> [s |-> TL!PlanClear(pl), r |-> 0]
                  [] e.op = "dataclear" -> [s |-> TL!DataClear(pl), r |-> 0]
                  [] e.op = "sweep"     -> LET w == TL!Sweep(pl, e.a) IN [s |-> w.s, r |-> Len(w.visited), vis |-> w.visited]
-    IN  IF e.r # res.r \/ e.order # OrderTriples(res.s) \/ ~TL!Refines(res.s) \/ ~TL!FreeListOK(res.s)
-           \/ (e.op = "sweep" /\ (e.vis # res.vis \/ ~TL!SweepVisitsAll(pl, e.a)))
-        THEN Bad("plan storage differs from the model", [r |-> res.r, order |-> OrderTriples(res.s)], e)
-        ELSE pl' = res.s /\ l' = l + 1 /\ Keep /\ UNCHANGED <<bav, arv, bsbuf, bswcur, bsrcur>>
+        \* what C10 talks about: results, and the tasks in iteration order (the slot a task lives in is the implementation's business)
+        Tasks(tr) == [q \in 1 .. Len(tr) |-> <<tr[q][2], tr[q][3]>>]
+    IN  IF e.r # res.r \/ Tasks(e.order) # res.s.abs \/ ~TL!Refines(res.s) \/ ~TL!FreeListOK(res.s)
+           \/ (e.op = "sweep" /\ (Tasks(e.vis) # pl.abs \/ ~TL!SweepVisitsAll(pl, e.a)))
+        THEN Bad("plan differs from the model", [r |-> res.r, order |-> OrderTriples(res.s)], e)
+        ELSE /\ pl' = res.s /\ l' = l + 1 /\ UNCHANGED <<rej, done, d1, d2, d4>> /\ UNCHANGED <<bav, arv, bsbuf, bswcur, bsrcur>>
+             \* slot indices are compared too (a fingerprint of the free list), but a difference there alone is only reported as drift
+             /\ d3' = IF d3 = 0 /\ (e.order # OrderTriples(res.s) \/ (e.op = "sweep" /\ e.vis # res.vis)) THEN l ELSE d3
 
 StepBA(e) ==
     LET nb == CASE e.op = "new" -> BA!BAInit [] e.op = "set" -> BA!SetBit(bav, e.a) [] e.op = "clear" -> BA!ClearBit(bav, e.a)
@@ -96,6 +100,7 @@ Step == /\ ~done /\ l <= Len(TraceLog)
 
 Finish == /\ ~done /\ l > Len(TraceLog) /\ done' = TRUE
           /\ \A q \in 1 .. Len(rej) : PrintT(<<"COMP-REJECTED", rej[q][1], rej[q][2], "EXPECTED", rej[q][3], "GOT", rej[q][4]>>)
+          /\ IF d3 # 0 THEN PrintT(<<"COMP-DRIFT", d3, "tasks occupy other slots than in the model (same sequence of tasks)">>) ELSE TRUE
           /\ IF rej = <<>> /\ TraceLog[Len(TraceLog)].e = "end" THEN PrintT(<<"COMP-ACCEPTED", Len(TraceLog)>>)
              ELSE IF rej = <<>> THEN PrintT(<<"COMP-REJECTED", l, "trace truncated (crash?)", "EXPECTED", <<>>, "GOT", <<>>>>) ELSE TRUE
           /\ UNCHANGED <<l, rej, pl, bav, arv, bsbuf, bswcur, bsrcur, d1, d2, d3, d4>>
